@@ -73,15 +73,40 @@ def probes_for(sut, rng):
     ps = nodes[:6]
     for p in nodes[:4]:
         ps += neighbours(rng, p)[:2]
-    return ps
+    return ps + [p for p in getattr(sut, "extra_probes", []) if p in m.nodes]
+
+
+def big_case(rng, mode, n):
+    """The scale history of the history engine (one webentity past the yield thresholds, hubs with
+    thousands of links, a 1100-prefix creation; > 4000 trie blocks) under the three lifecycle oracles."""
+    from .history import big_case as hbig
+
+    h = hbig(rng, n, merged_prefixes=0)
+    ops = [o for o in h["ops"] if o["op"] != "reopen"]
+    cfg = dict(h["cfg"])
+    cfg["backend"] = "file" if mode in ("reopen", "memfile") else rng.choice(["file", "memory"])
+    case = {"engine": "lifecycle", "mode": mode, "cfg": cfg, "ops": ops, "aseed": rng.getrandbits(32), "audit_every": len(ops),
+            "probes": h["probes"], "big": n}
+    if mode == "reopen":
+        case["positions"] = sorted({len(ops) // 2, len(ops)})
+    elif mode == "clear":
+        case["clear_at"] = len(ops)
+        case["clear_default"] = "domain"
+        case["clear_rules"] = []
+        # the same shape again under other names: the same blocks and list heads, other LRUs
+        h2 = hbig(random.Random(rng.getrandbits(32)), n, name=b"again", merged_prefixes=0)
+        case["ops_after"] = [o for o in h2["ops"] if o["op"] != "reopen"]
+        case["probes"] = h["probes"] + h2["probes"]
+    return case
 
 
 def compare(a, b, rng, stats, what, out, prop, at):
     """battery digests of two Suts."""
     pr = probes_for(a, random.Random(rng.getrandbits(32)))
     fa, fb = [], []
-    ansa, ca = B.run(a.t, pr, foreign=fa)
-    ansb, cb = B.run(b.t, pr, foreign=fb)
+    lite = "scale" if getattr(a, "extra_probes", None) else False
+    ansa, ca = B.run(a.t, pr, foreign=fa, lite=lite)
+    ansb, cb = B.run(b.t, pr, foreign=fb, lite=lite)
     stats["battery_comparisons"] += 1
     stats["battery_answers_compared"] += len(ansa)
     if B.digest(ansa) != B.digest(ansb):
@@ -101,6 +126,7 @@ def run_case(prop, case, spec, scratch, stats):
         if mode == "reopen":
             a = Sut(case["cfg"], scratch, stats)
             b = Sut(case["cfg"], scratch, Counter())
+            a.extra_probes = b.extra_probes = case.get("probes", [])
             ops = case["ops"]
             pos = Counter(case["positions"])
             for i in range(len(ops) + 1):
@@ -131,6 +157,7 @@ def run_case(prop, case, spec, scratch, stats):
                 stats["note_bytes_differ_with_equal_answers"] += 1
         elif mode == "clear":
             a = Sut(case["cfg"], scratch, stats)
+            a.extra_probes = case.get("probes", [])
             for i, op in enumerate(case["ops"][: case["clear_at"]]):
                 a.apply(op)
                 if a.dead:
@@ -140,8 +167,8 @@ def run_case(prop, case, spec, scratch, stats):
                     stats["C11_batteries_before_clear"] += 1
                 if a.cfg["backend"] == "file" and rng.random() < 0.15:
                     a.reopen()
-            if rng.random() < 0.5:
-                B.run(a.t, probes_for(a, rng), lite=True)
+            if rng.random() < 0.5 or case.get("big"):
+                B.run(a.t, probes_for(a, rng), lite="scale" if case.get("big") else True)
                 stats["C11_batteries_before_clear"] += 1
             clear_op = {"op": "clear", "default": case["clear_default"], "rules": case["clear_rules"]}
             ds = a.apply(clear_op)
@@ -154,6 +181,7 @@ def run_case(prop, case, spec, scratch, stats):
             cfg2["rules"] = case["clear_rules"]
             cfg2["overwrite"] = False
             b = Sut(cfg2, scratch, Counter())
+            b.extra_probes = case.get("probes", [])
             if not compare(a, b, rng, stats, "cleared-vs-fresh", out, prop, -1):
                 return out, feats, digest
             ops = case["ops_after"]
@@ -171,6 +199,7 @@ def run_case(prop, case, spec, scratch, stats):
             cm["backend"] = "memory"
             a = Sut(cm, scratch, stats)  # memory
             b = Sut(case["cfg"], scratch, Counter())  # fresh folder
+            a.extra_probes = b.extra_probes = case.get("probes", [])
             if not compare(a, b, rng, stats, "memory-vs-file", out, prop, -1):
                 return out, feats, digest
             ops = case["ops"]
@@ -262,15 +291,25 @@ def run_shard(prop, spec, tier, seed, shard, nshards, scratch):
     deadline = time.time() + tp.get("time_cap", 600)
     saved = 0
     modes = Counter()
-    for idx in range(tp["cases"]):
-        if idx % nshards != shard:
-            continue
+    todo = [("gen", idx) for idx in range(tp["cases"]) if idx % nshards == shard]
+    if tp.get("big"):
+        for j, mode in enumerate(sorted(set(spec["profile"]["modes"]))):
+            if (nshards - 1 - j) % nshards == shard:
+                todo.insert(0, ("big", mode))
+    for kind, idx in todo:
         if time.time() > deadline:
             res["notes"].append("shard %d stopped at time cap after %d cases" % (shard, res["cases"]))
             break
-        rng = random.Random("%s/%s/%s/%s" % (seed, prop, tier, idx))
-        case = build_case(rng, spec, tier, prop)
-        case["id"] = "%s/%s/%s/%s" % (seed, prop, tier, idx)
+        if kind == "big":
+            rng = random.Random("%s/%s/big/%s" % (seed, prop, idx))
+            case = big_case(rng, idx, tp["big"])
+            case["id"] = "big/%s" % idx
+            idx = "big_" + idx
+            stats["big_cases_past_the_thresholds"] += 1
+        else:
+            rng = random.Random("%s/%s/%s/%s" % (seed, prop, tier, idx))
+            case = build_case(rng, spec, tier, prop)
+            case["id"] = "%s/%s/%s/%s" % (seed, prop, tier, idx)
         ds, feats, digest = run_case(prop, case, spec, scratch, stats)
         res["cases"] += 1
         modes[case["mode"]] += 1
